@@ -391,7 +391,7 @@ func sortedAll(n *fsNode) []string {
 	return out
 }
 
-// An ordinary large tree (a few thousand small files, symlinks and directories, 30 levels deep in one branch) imported
+// An ordinary large tree (a few thousand small files, symlinks and directories, 120 levels deep in one branch) imported
 // while the process may open only a few dozen more descriptors than it already has: the importer is expected to hold one
 // file (and at most one directory per level while it lists it) at a time, as it does on the unchanged tree; a change that
 // keeps every file open until the end of its directory, or of the import, fails here the way it would on a production tree
@@ -413,7 +413,7 @@ func TestC18_R_ManyFilesFewDescriptors(t *testing.T) {
 		root.Kids[fmt.Sprintf("sub%d", d)] = sub
 	}
 	cur := root
-	for lvl := 0; lvl < 30; lvl++ {
+	for lvl := 0; lvl < 120; lvl++ {
 		next := &fsNode{Kind: fsDir, Kids: map[string]*fsNode{"leaf": {Kind: fsFile, Data: []byte{byte(lvl)}}}}
 		cur.Kids["deeper"] = next
 		cur = next
